@@ -62,9 +62,14 @@ CHECKS = {
                      '(~100, enumerated at run time) x every argument position x 7 error codes returns that error; aggregates over lists and ranges; errors stored in cells and handed on; IS* truth tables.',
                 note=XH_NOTE + ' P4: dateutil.parser.parse is replaced while tracing by its contract (datetime or ValueError, chosen by a symbolic Boolean); P2b: repr() of a symbolic string is a constant. '
                      'Texts in the no-crash family: quick = single characters of a 10-letter alphabet, thorough = printable ASCII (length 1) and that alphabet (length 2).'),
+    'C14': dict(engine='XH', technique='symbolic execution (CrossHair+z3) of SUM/AVERAGE/MIN/MAX/COUNT/COUNTA/SUMPRODUCT through compiled formulas over rectangles with symbolic int/blank cells and a text cell at a symbolic position, vs folds',
+                text='Bounded symbolic model checking: for rectangles up to 1x3 / 2x2 (thorough up to 2x3 / 3x2) whose cells are Optional[int] (blank pattern forked, ints unbounded) with a non-numeric text cell at '
+                     'any position, the aggregates equal the fold over exactly the addressed values (mean by cross-multiplication), MIN <= AVERAGE <= MAX, SUM is additive over splits, results are invariant '
+                     'under argument order and content permutation; SUMPRODUCT = sum of element-wise products, #VALUE! on shape mismatch.',
+                note=XH_NOTE + ' Numeric-looking text and booleans inside ranges are outside the statement; MIN/MAX orderings limit the rectangle size (n! paths).'),
 }
 NA = {
     'C12': 'persist/restore is ten lines around jsonpickle -> json (C encoder) -> gzip/file I/O; no repo-side kernel a solver can quantify over (symbolic values are realised or pickled as proxy objects at the codec boundary)',
 }
-for _p in ['C08', 'C11', 'C14', 'C15', 'C16', 'C18', 'C19', 'C20']:
+for _p in ['C08', 'C11', 'C15', 'C16', 'C18', 'C19', 'C20']:
     NA.setdefault(_p, 'check not built yet in this revision (planned: see DESIGN.md §4)')
